@@ -4,6 +4,7 @@
    (Gen_kernels.v, Gen_wrappers.v).  Theorems over an arbitrary carrier K need no axioms;
    theorems at KR (real exp / ln / x^(3/4)) use the standard library's real numbers. *)
 From V Require Import C16.Model C16.Proofs C16.ProofsR C16.ProofsIdx C16.ProofsPerm C16.GibbsDuhem C16.ProofsGD.
+From V Require Import C16.GibbsDuhemResid C16.ProofsDeep.
 From Coquelicot Require Import Coquelicot.
 From Coq Require Import Reals List Permutation Lia.
 From Coq Require Import Lra.
@@ -358,6 +359,65 @@ Definition C16_gibbs_duhem_statement : Prop :=
   sum_over (enum cs) (fun ic =>
      cx (snd ic) * Derive (fun h => ln (nth (fst ic) (gamma_sub_UNIFAC Qs psis gpsis (shift_x cs a b h)) 0)) 0)%R = 0%R.
 
+(* ------------------------------------------------------------------ deepening *)
+(* pure limit THROUGH the gather / scatter: both wrappers on the full chemical list (members without groups included,
+   arguments laid out as __new__ does, chem_Qfractions and group_mask as __new__ derives them) at x = e_j, j a member
+   with groups, return exactly 1 for j *)
+Theorem C16_wrapper_pure_limit : forall (G : nat) (Qs : list R) (fs : list fchem) (j : nat) (c : chem) T,
+  (0 < G)%nat -> length Qs = G -> (forall k, (k < G)%nat -> 0 <= nth k Qs 0)%R ->
+  (forall f c0, In f fs -> fd f = Some c0 ->
+     length (cg c0) = G /\ (forall k, 0 <= nth k (cg c0) 0)%R /\
+     exists k, (k < G)%nat /\ (0 < nth k Qs 0)%R /\ (0 < nth k (cg c0) 0)%R) ->
+  a_cQ_of fs = derive_cQfs KR (a_cg_of fs) Qs ->
+  (j < length fs)%nat -> fd (nth j fs fchem0) = Some c -> unit_at fs j -> cr c <> 0%R -> cq c <> 0%R ->
+  let mask := derive_mask KR (a_cQ_of fs) G in
+  (forall inter g0 w, rectangular (psi_modified_UNIFAC KR T inter) G G ->
+     gamma_modified_UNIFAC KR (map fx fs) T inter g0 mask (a_qs_of fs) (a_rs_of fs) Qs (a_cg_of fs) (a_cQ_of fs)
+                           (index_from 0 fs) = Ok w -> nth j (w_gamma w) 0%R = 1%R) /\
+  (forall inter g0 w, rectangular (psi_UNIFAC KR T inter) G G ->
+     gamma_UNIFAC KR (map fx fs) T inter g0 mask (a_qs_of fs) (a_rs_of fs) Qs (a_cg_of fs) (a_cQ_of fs)
+                  (index_from 0 fs) = Ok w -> nth j (w_gamma w) 0%R = 1%R).
+Proof. exact wrapper_pure_limit. Qed.
+Print Assumptions C16_wrapper_pure_limit.
+
+(* Euler relation of the group kernel: constant along rays, so the radial derivative vanishes (all coefficients) *)
+Theorem C16_group_kernel_radial_derivative : forall x cgm lc Qs psis cQfs gpsis i,
+  Derive (fun l => nth i (group_activity_coefficients KR (map (Rmult l) x) cgm lc Qs psis cQfs gpsis) 0%R) 1 = 0%R.
+Proof. exact gac_radial_derivative. Qed.
+Print Assumptions C16_group_kernel_radial_derivative.
+
+(* Gibbs-Duhem for the RESIDUAL (group) part of the generated kernel, binary mixtures of two chemicals each made of
+   n_i groups of its own kind (two groups, arbitrary positive Q, psi; any stored reference rows): along x2 = 1 - x1,
+   x1 dln(gamma1^R)/dx1 + x2 dln(gamma2^R)/dx1 = 0 *)
+Theorem C16_gibbs_duhem_resid_two_groups : forall Q1 Q2 n1 n2 p11 p12 p21 p22 gpsis cQ1 cQ2 t,
+  rectangular gpsis 2 2 -> length cQ1 = 2%nat -> length cQ2 = 2%nat ->
+  (0 < Q1 -> 0 < Q2 -> 0 < n1 -> 0 < n2 -> 0 < p11 -> 0 < p12 -> 0 < p21 -> 0 < p22 -> 0 < t < 1 ->
+   t * Derive (fun u => ln (nth 0 (group_activity_coefficients KR (u :: (1 - u) :: nil)
+                  ((n1 :: 0 :: nil) :: (0 :: n2 :: nil) :: nil) (0 :: 0 :: nil) (Q1 :: Q2 :: nil)
+                  ((p11 :: p12 :: nil) :: (p21 :: p22 :: nil) :: nil) (cQ1 :: cQ2 :: nil) gpsis) 0)) t +
+   (1 - t) * Derive (fun u => ln (nth 1 (group_activity_coefficients KR (u :: (1 - u) :: nil)
+                  ((n1 :: 0 :: nil) :: (0 :: n2 :: nil) :: nil) (0 :: 0 :: nil) (Q1 :: Q2 :: nil)
+                  ((p11 :: p12 :: nil) :: (p21 :: p22 :: nil) :: nil) (cQ1 :: cQ2 :: nil) gpsis) 0)) t = 0)%R.
+Proof.
+  intros Q1 Q2 n1 n2 p11 p12 p21 p22 gpsis cQ1 cQ2 t Rg L1 L2.
+  exact (gibbs_duhem_resid_two Q1 Q2 n1 n2 p11 p12 p21 p22 gpsis cQ1 cQ2 0%R 0%R 0%R 0%R Rg L1 L2 t).
+Qed.
+Print Assumptions C16_gibbs_duhem_resid_two_groups.
+
+(* what is missing for residual Gibbs-Duhem in general (n chemicals, several groups per chemical), NOT proved: with the
+   Euler relation above, Gibbs-Duhem along e_a - e_b is equivalent to the symmetry of the cross derivatives of the residual
+   exponent, d ln(gamma_i^R)/dx_j = d ln(gamma_j^R)/dx_i (existence of the excess-Gibbs potential) *)
+Definition bump_x (cs : list chem) (j : nat) (h : R) : list chem :=
+  map (fun jc => set_cx (snd jc) (cx (snd jc) + (if Nat.eqb (fst jc) j then h else 0))%R) (enum cs).
+Definition C16_residual_cross_symmetry_statement : Prop :=
+  forall (Qs : list R) (psis gpsis : list (list R)) (G : nat) (cs : list chem) (i j : nat),
+  (i < length cs)%nat -> (j < length cs)%nat -> length Qs = G -> rectangular psis G G -> rectangular gpsis G G ->
+  (forall c, In c cs -> (0 < cx c)%R /\ length (cg c) = G /\ length (cQ c) = G /\ (forall k, 0 <= nth k (cg c) 0)%R) ->
+  (forall k, (k < G)%nat -> 0 < nth k Qs 0)%R ->
+  (forall m n, (m < G)%nat -> (n < G)%nat -> 0 < ent psis m n)%R ->
+  Derive (fun h => resid_of Qs psis gpsis (wc_of (bump_x cs j h)) (nth i cs chem0)) 0 =
+  Derive (fun h => resid_of Qs psis gpsis (wc_of (bump_x cs i h)) (nth j cs chem0)) 0.
+
 (* ------------------------------------------------------------------ non-vacuity *)
 Example C16_nonvacuous_pure :
   let cs := [mkChem 1 (7/5) (23/25) (1%R :: nil) (1%R :: nil) 0; mkChem 0 2 3 (1%R :: nil) (1%R :: nil) 0] in
@@ -420,6 +480,35 @@ Proof.
   - intros c [E|[E|[E|[]]]]; subst; simpl; repeat split; lra.
   - unfold sum_over, sumR. simpl. lra.
 Qed.
+
+(* the hypotheses of C16_wrapper_pure_limit are met: water-like chemical, a member without groups, alkane-like chemical *)
+Example C16_nonvacuous_wrapper_pure_limit :
+  let Qs := [1; 2]%R in
+  let c1 := mkChem 0 1 1 [1; 0]%R (cQ_row Qs [1; 0]%R) 0 in
+  let c2 := mkChem 0 2 3 [0; 1]%R (cQ_row Qs [0; 1]%R) 0 in
+  let fs := [mkF 1 (Some c1); mkF 0 None; mkF 0 (Some c2)] in
+  (forall f c0, In f fs -> fd f = Some c0 ->
+     length (cg c0) = 2%nat /\ (forall k, 0 <= nth k (cg c0) 0)%R /\
+     exists k, (k < 2)%nat /\ (0 < nth k Qs 0)%R /\ (0 < nth k (cg c0) 0)%R) /\
+  a_cQ_of fs = derive_cQfs KR (a_cg_of fs) Qs /\ fd (nth 0 fs fchem0) = Some c1 /\ unit_at fs 0 /\
+  cr c1 <> 0%R /\ cq c1 <> 0%R /\ rectangular (psi_UNIFAC KR 350 [[0; 300]; [200; 0]]%R) 2 2.
+Proof.
+  cbv zeta. split; [|split; [|split; [|split; [|split; [|split]]]]].
+  - intros f c0 [E|[E|[E|[]]]] Hd; subst; simpl in Hd; inversion Hd; subst; simpl.
+    + split; [reflexivity|]. split; [intros [|[|[|k]]]; simpl; lra|]. exists 0%nat. simpl. repeat split; try lia; lra.
+    + split; [reflexivity|]. split; [intros [|[|[|k]]]; simpl; lra|]. exists 1%nat. simpl. repeat split; try lia; lra.
+  - reflexivity.
+  - reflexivity.
+  - intros [|[|[|k]]] Hk; simpl in *; try reflexivity; lia.
+  - simpl; lra.
+  - simpl; lra.
+  - split; [reflexivity|]. intros row [E|[E|[]]]; subst; reflexivity.
+Qed.
+
+(* ... and those of C16_gibbs_duhem_resid_two_groups *)
+Example C16_nonvacuous_resid_two_groups :
+  rectangular [[1; 0]; [0; 1]]%R 2 2 /\ length [1; 0]%R = 2%nat /\ (0 < 1 /\ 0 < 1 / 2 < 1)%R.
+Proof. split; [|split; [reflexivity|lra]]. split; [reflexivity|]. intros row [E|[E|[]]]; subst; reflexivity. Qed.
 
 Local Open Scope Q_scope.
 (* a wrapper run that takes the group path and returns (carrier option Q, affine stand-ins) *)
